@@ -1,8 +1,10 @@
+\* Not part of the check: requests dispatched by the high byte of the message type (seeded mutant C15-3).
+\* TLC violates AuthOnly with one step: Recv(indication, binding, auth none, ...).
 SPECIFICATION Spec
 CONSTANTS
   Roles = {TRUE, FALSE}
-  RequireMI = FALSE
-  Dispatch = "class"
+  RequireMI = TRUE
+  Dispatch = "highbyte"
   Methods = {"binding", "other"}
   Priorities = {TRUE, FALSE}
   ForgedAuth = {"none", "wrong", "trunc"}
